@@ -148,7 +148,7 @@ def run(repo, rep, tier):
     checks = [
         ("NumberCell", "_pack_decimal128(self.value)" in ev.get("NumberCell", ""), dv.get("NumberCell") == "d128" and "_unpack_decimal128(" in U(dec.func)),
         ("TextCell", "self._model.table_string_key(self._table_id, self.value)" in ev.get("TextCell", ""), dv.get("TextCell") == "model.table_string(table_id, storage_flags._string_id)"),
-        ("DateCell", "float(date_delta.total_seconds())" in ev.get("DateCell", "") and "date_delta = self._value - EPOCH" in encsrc, dv.get("DateCell") == "EPOCH + timedelta(seconds=seconds)"),
+        ("DateCell", _date_epoch_ok(enc), dv.get("DateCell") == "EPOCH + timedelta(seconds=seconds)"),
         ("BoolCell", "float(self.value)" in ev.get("BoolCell", ""), dv.get("BoolCell") in ("double > 0.0", "double != 0.0", "bool(double)")),
         ("DurationCell", "float(self.value.total_seconds())" in ev.get("DurationCell", ""), dv.get("DurationCell") == "timedelta(seconds=double)"),
     ]
@@ -256,6 +256,40 @@ def run(repo, rep, tier):
     rep.floor("C01.R2", 25)
     rep.floor("C01.R3", 5)
     rep.floor("C01.R4", 7)
+
+
+def _date_epoch_ok(enc) -> bool:
+    """DateCell payload = float((<cell value> - E).total_seconds()) where E is EPOCH for naive values."""
+    kb = next((k for k in enc.kinds if k.cls == "DateCell"), None)
+    if kb is None or kb.value_expr is None:
+        return False
+    defs = {}
+    for n in ast.walk(kb.node):
+        if isinstance(n, ast.Assign) and isinstance(n.targets[0], ast.Name):
+            defs.setdefault(n.targets[0].id, []).append(n.value)
+    ts = [c for c in ast.walk(kb.value_expr) if isinstance(c, ast.Call) and last_attr(c.func) == "total_seconds"]
+    if not ts:
+        return False
+    recv = ts[0].func.value
+    cands = [recv]
+    if isinstance(recv, ast.Name) and recv.id in defs:
+        cands = defs[recv.id]
+    ok = bool(cands)
+    for c in cands:
+        if not (isinstance(c, ast.BinOp) and isinstance(c.op, ast.Sub) and U(c.left) in ("self._value", "self.value")):
+            return False
+        r = c.right
+        rs = [r]
+        if isinstance(r, ast.Name) and r.id in defs:
+            rs = defs[r.id]
+        for x in rs:
+            if isinstance(x, ast.IfExp):
+                naive = x.body if "is None" in U(x.test) else x.orelse
+                ok = ok and U(naive) == "EPOCH"
+            else:
+                ok = ok and (U(x) == "EPOCH" or U(x).startswith("EPOCH.astimezone("))
+    # the naive form must be present
+    return ok and "EPOCH" in U(kb.node)
 
 
 def _name_is_exact(f, name) -> bool:
